@@ -330,6 +330,7 @@ func runC14(p *eng.Prog, r *eng.Report, tier string) {
 	c14Routers(c)
 	c14Options(c)
 	c14OwnAttrs(c)
+	typedAttrsThroughOwnDecoder(c, "C14.7")
 	c07Fallback(c)
 	// ---- C14.4b the *Func options refuse nil funcs too ---------------------------------
 	// a nil func converted to the handler interface is a NON-nil interface: the
@@ -920,4 +921,63 @@ func c14OwnAttrs(c *cx) {
 		}
 	}
 	c.r.Floor("C14.6", "attribute-derived stanza fields", n, 12)
+}
+
+// typedAttrsThroughOwnDecoder (C14.7/C13.18, sibling agreement): the
+// multiplexer routes on the stanza value that stanza.New{IQ,Message,Presence}
+// build by hand from the start element, the rest of the library on values that
+// encoding/xml decodes. Where the type of a field has its own UnmarshalXMLAttr
+// (MessageType maps every undefined value to "normal"), the hand-written
+// constructor sets the field through that method, never by a plain conversion
+// of the attribute value: otherwise <message type="bogus"/> is routed as type
+// "bogus" by the mux and as "normal" by everything that decodes it.
+func typedAttrsThroughOwnDecoder(c *cx, id string) {
+	n := 0
+	for _, name := range []string{"NewIQ", "NewMessage", "NewPresence"} {
+		f := c.fn(id, "stanza", name)
+		if f == nil {
+			continue
+		}
+		hasDecoder := func(t types.Type) bool {
+			return t != nil && types.NewMethodSet(types.NewPointer(t)).Lookup(nil, "UnmarshalXMLAttr") != nil
+		}
+		// fields of the result type with a decoder of their own
+		need := map[string]bool{}
+		if res := f.Sig().Results(); res.Len() > 0 {
+			if st, ok := res.At(0).Type().Underlying().(*types.Struct); ok {
+				for i := 0; i < st.NumFields(); i++ {
+					if fl := st.Field(i); hasDecoder(fl.Type()) {
+						if _, isNamedBasic := fl.Type().Underlying().(*types.Basic); isNamedBasic {
+							need[fl.Name()] = true
+						}
+					}
+				}
+			}
+		}
+		for _, w := range f.Writes() {
+			sel, ok := ast.Unparen(w.LHS).(*ast.SelectorExpr)
+			if !ok || !need[sel.Sel.Name] || w.RHS == nil {
+				continue
+			}
+			// the literal default (Type: "normal") is a constant
+			if f.ConstVal(w.RHS) != nil {
+				continue
+			}
+			n++
+			c.r.Check(id, f, "field "+sel.Sel.Name+" assigned from an attribute", "sibling agreement: a field whose type has its own UnmarshalXMLAttr is set through it", w.Stmt.Pos(), false, "assigned "+f.Norm(w.RHS, nil)+" directly: undefined values are not normalised as encoding/xml would")
+		}
+		for fld := range need {
+			calls := 0
+			for _, cl := range f.AllCalls() {
+				if strings.HasSuffix(f.CalleeID(cl), ".UnmarshalXMLAttr") {
+					if sel, ok := ast.Unparen(cl.Fun).(*ast.SelectorExpr); ok && strings.HasSuffix(strings.TrimSuffix(types.ExprString(sel.X), ")"), "."+fld) {
+						calls++
+					}
+				}
+			}
+			n++
+			c.r.Check(id, f, "field "+fld+" decoded through its own UnmarshalXMLAttr", "sibling agreement: the hand-written constructor calls the field type's attribute decoder", f.Pos(), calls >= 1, "no call of "+fld+"'s UnmarshalXMLAttr in "+name)
+		}
+	}
+	c.r.Floor(id, "typed attribute fields with a decoder of their own", n, 1)
 }
